@@ -662,7 +662,10 @@ class C15(PropertyCheck):
             if rng.random() < 0.5:
                 cases.append(dict(cc, kind="quasiasm", dim=rng.choice([0, 1, 1, 2, 3, 4])))
             else:
-                cases.append(dict(cc, kind="eccone", x=rng.choice([0.25, 0.5, 1.0, 1.75, 2.5, 3.0, 4.5]),
+                xx = rng.choice([0.25, 0.5, 1.0, 1.75, 2.5, 3.0, 4.5])
+                if st in ("gauss", "t") and rng.random() < 0.35:
+                    xx = -xx
+                cases.append(dict(cc, kind="eccone", x=xx,
                                   search=[float(rng.choice([0, 0, 1, 2, 0.5, 10])) for _ in range(rng.choice([1, 2, 3, 4]))]))
         n_d = 160 if quick else 2500
         for _ in range(n_d):
@@ -670,8 +673,10 @@ class C15(PropertyCheck):
             dfn = rng.choice([1, 2, 3, 4, 5, 6, 8, 12])
             dfd = rng.choice([1, 2, 3, 4, 5, 7, 10, 20, 40.5, 100, 1000])
             dim = rng.choice([0, 0, 1, 2, 3])
-            cases.append({"kind": "density", "stat": stat, "dfn": dfn, "dfd": dfd, "dim": dim,
-                          "x": rng.choice([0.25, 0.5, 1.0, 1.75, 2.5, 3.0, 4.5, 6.0, 9.0])})
+            x = rng.choice([0.25, 0.5, 1.0, 1.75, 2.5, 3.0, 4.5, 6.0, 9.0])
+            if stat in ("gauss", "t") and rng.random() < 0.35:
+                x = -x if rng.random() < 0.85 else 0.0       # thresholds below zero: fields on the whole line
+            cases.append({"kind": "density", "stat": stat, "dfn": dfn, "dfd": dfd, "dim": dim, "x": x})
         return cases
 
     # ---- per case ----------------------------------------------------------------
